@@ -80,7 +80,7 @@ def compare_loaded(cl, got, exp):
                'lecturer ranks present without -twopl: %s' % (got['lrank'],))
 
 
-def run_once(argv, chooser=None, seed=0, getters=('short', 'long'), mode='standin', timeLimit=None, **kw):
+def run_once(argv, chooser=None, seed=0, getters=('short', 'long'), mode='standin', timeLimit=None, presolve=False, **kw):
     """Fresh Solver, one solve under observation (the virtual clock, if any, is
     already in place when the Solver is constructed).  Returns dict."""
     rec = observe.Recorder(mode=mode, chooser=chooser, seed=seed, **kw)
@@ -92,6 +92,20 @@ def run_once(argv, chooser=None, seed=0, getters=('short', 'long'), mode='standi
             return r
         r['solver'] = S
         rec.solver = S
+        if presolve:
+            # a healthy solve and one call of every getter BEFORE the observed run (same object)
+            pre = observe.Recorder(mode='standin', seed=seed + 1, keep_sets=False, clock=rec.clock)
+            pre.solver = S
+            observe._active[0] = pre
+            try:
+                with impl.quiet():
+                    S.solve() if timeLimit is None else S.solve(timeLimit=timeLimit)
+                for fn in (S.get_results, S.get_results_short, S.get_results_long):
+                    fn()
+            except BaseException as e:  # noqa
+                r['pre_exc'] = '%s: %s' % (type(e).__name__, e)
+            finally:
+                observe._active[0] = rec
         try:
             with impl.quiet():
                 if timeLimit is None:
